@@ -67,7 +67,12 @@ impl TypeDependencyGraph {
         let mut visited = HashSet::new();
         let mut visiting = HashSet::new();
 
-        for type_name in types {
+        // Walk the requested types and their dependencies in name order: the sets are
+        // hash sets, and the result should not depend on their iteration order
+        let mut requested: Vec<&String> = types.iter().collect();
+        requested.sort();
+
+        for type_name in requested {
             if !visited.contains(type_name) {
                 self.topological_visit(type_name, &mut sorted, &mut visited, &mut visiting);
             }
@@ -101,6 +106,8 @@ impl TypeDependencyGraph {
 
         // Visit dependencies first
         if let Some(deps) = self.dependencies.get(type_name) {
+            let mut deps: Vec<&String> = deps.iter().collect();
+            deps.sort();
             for dep in deps {
                 self.topological_visit(dep, sorted, visited, visiting);
             }
